@@ -11,7 +11,13 @@ for every turn (the hostile one and all later ones), the task of every LLM call
 (wrapper around the instance's `render_task_prompt`), the literal reply text.
 
 Oracle (independent of the code under test, ~20 lines, `judge_reply`):
-  * generate must not raise anything but LLMCallException;
+  * generate must not raise anything but LLMCallException, and must return within the
+    logical step budget (v1: parser/runtime function entries; the v1 Colang parser has a
+    genuine endless loop that LLM text can reach);
+  * no LLM post-processing action (generate_user_intent / next_step / bot_message /
+    intent_steps_message, v2 intent / continuation / flow-from-name) may crash on the
+    completion (the dispatcher turns that into the "internal error" reply = a broken turn);
+    value generation is exempt: a completion that is no literal makes it fail by design;
   * the reply is {"role": "assistant", "content": str} or {"role": "exception",
     "content": dict with a str "type"};
   * when taint expressions were planted in LLM *message text*, the reply must not
@@ -19,15 +25,15 @@ Oracle (independent of the code under test, ~20 lines, `judge_reply`):
     the colang version) — the literal text (or no text) is fine.
 """
 import random
-import zlib
 
 PROPERTY = "C17"
 LEVEL = "exploration"
 RULE = (
     "case = (pipeline mode, conversation of 1-3 turns of given turn types, LLM call position, text returned at that position); text in "
     "{hostile corpus, hostile/taint text inside the message slot of the well-formed completion, 1-3 random mutations of the well-formed completion}; "
-    "all other calls answer well-formed. quick: every corpus string and every taint carrier at EVERY call position of every one-turn conversation of every "
-    "mode, plus sampled 2-3 turn conversations; non-trivial = the text differs from the well-formed completion of that position and the hostile "
+    "all other calls answer well-formed. Every call position of every one-turn conversation of every mode gets the corpus and the taint carriers "
+    "(quick: the whole corpus the first time a (mode, call kind) pair occurs - v2: a seeded third -, a seeded third/ninth at its repeats; thorough: all), "
+    "plus sampled 1-3 turn conversations; non-trivial = the text differs from the well-formed completion of that position and the hostile "
     "position was reached; distinct = (mode, turn types, position, text)"
 )
 MIN_HELD = {"quick": 400, "thorough": 4000}
@@ -39,7 +45,10 @@ ASSUMPTIONS = [
     "generate_value, or the quoted message slot of single-call, v2 `bot say \"…\"` completions; `bot $var` as a generated *step* is code by design",
     "oracle: result shape check + `evaluated marker not in reply` (judge_reply, 20 lines); a violation seen on a re-used LLMRails instance is "
     "re-run on a fresh instance and only reported if it reproduces",
-    "v2 turns run under the logical step budget; an overrun is `nonterminating` (C10's subject), not a verdict",
+    "a crash of an LLM post-processing action that the dispatcher contains (reply = internal error) counts as a broken turn; generate_value / "
+    "GenerateValueAction failing on a non-literal completion is the designed containment and is only counted",
+    "every turn runs under the logical step budget (v1 600k, v2 8M function entries; largest well-behaved turns seen: 45k / 2M); a v2 overrun is "
+    "`nonterminating` (C10's subject, inconclusive), a v1 overrun is a verdict (generate does not complete the turn)",
 ]
 SAMPLE_EVERY = 211
 CASE_WALL_S = 120
@@ -234,6 +243,8 @@ TAINT = [
     ("{$system.config.colang_version}", "2.x"), ("$user_message", UTOK), ("{{ user_message }}", UTOK), ("{{ last_user_message }}", UTOK), ("$last_user_message", UTOK),
     ("{$event.final_transcript}", UTOK), ("{{ history }}", UTOK), ("{len('abcdefg')*191}", "1337"),
 ]
+# completions for a *value* position that are expressions, not literals: literal_eval must refuse them
+VALUE_TAINT = [("7*191", "1337"), ("1300+37", "1337"), ("'QZ'*3", "QZQZQZ"), ("str(7*191)", "1337"), ("len('abcdefg')*191", "1337"), ('"13" + "37"', "1337"), ("[7*191]", "1337"), ("$secret_var", "SECRETVAL"), ("secret_var", "SECRETVAL")]
 ALL_MARKERS = ["1337", "SECRETVAL", "QZQZQZ", UTOK]
 MUT_TOKENS = ['"', "\n", "$secret_var", "{{ 7*191 }}", "{", "}", "user ", "bot ", "define flow ", "...", "\x00", "#", ":", "  ", "\t", "if ", "(", ")", ",", "'", "=", "$", "\\", "{% for i in range(3) %}QZ{% endfor %}", " and ", " or ", "\n  ", "{1300+37}", "😀"]
 
@@ -288,6 +299,9 @@ def _texts_for(kind, full):
     out = []
     for i, h in enumerate(HOSTILE):
         out.append(("corpus%d" % i, h, _mk(ALL_MARKERS, h) if kind in PURE_MESSAGE_KINDS else []))
+    if kind in ("value", "v2value"):
+        for i, (tx, mk) in enumerate(VALUE_TAINT):
+            out.append(("taintv%d" % i, tx, _mk([mk], tx)))
     car = CARRIERS.get(kind)
     if car:
         for i, (tx, mk) in enumerate(TAINT):
@@ -354,6 +368,8 @@ LLM_ACTIONS = {
     "generate_user_intent", "generate_next_step", "generate_bot_message", "generate_intent_steps_message",
     "GenerateUserIntentAction", "GenerateFlowContinuationAction", "GenerateFlowFromNameAction", "GenerateUserIntentAndBotAction",
     "generate_flow_continuation", "generate_flow_from_name", "generate_user_intent_and_bot_action",
+    # the consumer of LLM generated flow source (has a fallback flow for code that does not parse)
+    "AddFlowsAction", "add_flows",
 }
 VALUE_ACTIONS = {"generate_value", "GenerateValueAction"}
 
@@ -578,7 +594,7 @@ def _standalone_parse_ok(text):
     """Structural fact for the classifier: does the generated body pass the validation `generate_next_step` applies (parse on its own)?"""
     from . import steps
 
-    steps.start(STEP_BUDGET["v1"])
+    steps.start(STEP_BUDGET["v1"] // 4)
     try:
         _W["parse"]("dynamic.co", content=text)
         return True
@@ -603,7 +619,7 @@ def run_case(case):
         return dict(base, verdict="inconclusive", reason="app-build-failed:%s" % type(e).__name__, detail=traceback.format_exc()[-800:], nontrivial=False)
     turns, problem = _run(app, case, cid)
     fresh_confirmed = None
-    if (problem is not None or app.hit_kind != case["kind"]) and app.uses > 1:
+    if (problem is not None or app.hit_kind != case["kind"]) and app.uses > 1 and not (problem is not None and problem["what"] == "nonterminating"):
         # never blame a case for what an earlier conversation on the same instance left behind
         app2 = get_app(mode, fresh=True)
         turns2, problem2 = _run(app2, case, cid)
@@ -695,6 +711,9 @@ def classify(r):
             return "v1-multistep-start-flow-parse-unguarded"
     if kind == "v2value" and what == "raised" and r.get("serialisation_site"):
         return "v2-generated-value-not-serialisable"
+    if what == "llm-postprocessing-crashed" and mech.endswith(":AddFlowsAction") and kind in ("v2cont", "v2single"):
+        # these two kinds hand AddFlowsAction a source whose first line is the `@meta(bot_intent=...)` decorator
+        return "v2-add-flows-fallback-defeated-by-decorator-line"
     if what == "llm-postprocessing-crashed" and r.get("empty_completion"):
         mech += ":empty-completion"
     return "%s:%s:%s" % (mode, kind, mech)
